@@ -778,6 +778,23 @@ def replay_refutation(con, raw, combo, s, p, model, goal):
     return rec
 
 
+def _has_havoc(v):
+    t = getattr(v, "t", None)
+    if t is None or not z3.is_expr(t):
+        return False
+    seen = set()
+    stack = [t]
+    while stack:
+        e = stack.pop()
+        if e.get_id() in seen:
+            continue
+        seen.add(e.get_id())
+        if z3.is_const(e) and e.decl().kind() == z3.Z3_OP_UNINTERPRETED and e.decl().name().startswith("hv_"):
+            return True
+        stack.extend(e.children())
+    return False
+
+
 def crosscheck_path(con, raw, combo, s, p, rep, oid):
     """Engine-soundness guard: run the real function on one model of the path and compare outcomes."""
     sol = z3.Solver()
@@ -802,6 +819,12 @@ def crosscheck_path(con, raw, combo, s, p, rep, oid):
         if type(val) is not p.value.cls:
             rep.crosscheck_mismatch.append(
                 f"{oid}: engine raises {p.value.cls.__name__}, CPython raises {type(val).__name__} on {nargs!r}")
+        return
+    if _has_havoc(p.value):
+        # the engine over-approximated this value (e.g. repr text): only the class can be compared
+        if type(val) is not p.value.cls:
+            rep.crosscheck_mismatch.append(
+                f"{oid}: engine returns a {p.value.cls.__name__}, CPython returns {describe(val)} on {nargs!r}")
         return
     try:
         expect = conc_under(p.value, m)
